@@ -146,15 +146,18 @@ def isNumOf (env : Env) (df : Bytes) (kind : Bool) (d : Ex) : Bool :=
      | _ => false)
   | _ => false
 
+/-- what happens to the tree of reductions once the parser accepts: the constructor semantics, the edge case for
+    a single literal with a default field (after fix F10), and expr.Validate -/
+def finalize (env : Env) (df : Bytes) (ex : Ex) : Out Expr := do
+  let e ← sem env df ex
+  let final ← if e.op = .literal && !df.isEmpty then mkExpr (.prim (.str df)) .equals [.expr e] else .ok e
+  if validateExpr final then .ok final else .err
+
 /-- parser.parse + expr.Validate on a token list (list end = EOF; a lexical error is an `.err` token) -/
 def parseTokens (env : Env) (df : Bytes) (toks : List Tok) : Out Expr :=
   match parseToks (isNumOf env df) toks with
   | .err => .err
-  | .ok ex => do
-    let e ← sem env df ex
-    -- edge case for a single literal in the expression and a default field specified (after fix F10)
-    let final ← if e.op = .literal && !df.isEmpty then mkExpr (.prim (.str df)) .equals [.expr e] else .ok e
-    if validateExpr final then .ok final else .err
+  | .ok ex => finalize env df ex
 
 /-- the token stream the parser sees through `Peek`/`Next`: the tokens, then (for ever) the error token if
     lexing failed -/
